@@ -7,7 +7,8 @@ from ..treecheck import TreeCheck
 QUALS = ["ProcessPoolExecutor.submit", "_ReusablePoolExecutor.submit", "ProcessPoolExecutor._ensure_executor_running", "ProcessPoolExecutor._adjust_process_count",
          "_ExecutorManagerThread.add_call_item_to_queue", "_ExecutorManagerThread.process_result_item", "_ExecutorManagerThread.wait_result_broken_or_wakeup",
          "_ReusablePoolExecutor._resize", "_ReusablePoolExecutor._wait_job_completion", "_ExecutorManagerThread.shutdown_workers",
-         "_ExecutorManagerThread.join_executor_internals", "_ExecutorManagerThread.run", "ProcessPoolExecutor._start_executor_manager_thread"]
+         "_ExecutorManagerThread.join_executor_internals", "_ExecutorManagerThread.run", "ProcessPoolExecutor._start_executor_manager_thread",
+         "BaseProcess.sentinel", "BaseProcess.is_alive", "BaseProcess.start", "BaseProcess.join", "BaseProcess.exitcode"]
 
 
 class C07(TreeCheck):
@@ -30,6 +31,7 @@ class C07(TreeCheck):
         quick = tier == "quick"
         out = explore.derive_D(F, base, rng, 16 if quick else 45, quals=QUALS)
         out += explore.derive_WD(F, base, rng, 10 if quick else 25, quals=["_process_worker", "Queue.get", "SimpleQueue.put", "SemLock.acquire", "SemLock.release", "_python_exit"])
+        out += explore.derive_DS(F, base, rng, 2 if quick else 4)
         out += explore.derive_Z(rng, 2 if quick else 6)
         return out
 
